@@ -58,17 +58,29 @@ Theorem C01_finally_overrides_otto :
 Proof. exact ofinally_overrides. Qed.
 Print Assumptions C01_finally_overrides_otto.
 
-(* otto's deviations: labelled statements whose body is an if / a bare jump /
-   whose catch block jumps to the label leak the break out of the program *)
-Theorem C01_label_direct_refuted : exists p, differs p = true /\ wf (SBlock p) = false.
-Proof. exists w_label_if. exact w_label_if_differs. Qed.
-Print Assumptions C01_label_direct_refuted.
-Theorem C01_label_catch_refuted : exists p, differs p = true /\ wf (SBlock p) = false.
-Proof. exists w_label_catch. exact w_label_catch_differs. Qed.
-Print Assumptions C01_label_catch_refuted.
-Theorem C01_label_bare_refuted : exists p, differs p = true /\ wf (SBlock p) = false.
-Proof. exists w_label_bare. exact w_label_bare_differs. Qed.
-Print Assumptions C01_label_bare_refuted.
+(* 12.12, repaired in /repo (finding C01-label-leak / C02-label-leak): a labelled statement takes a break to its own
+   label whatever its body is.  Unguarded, for every evaluator/poll/enumeration parameter and every body *)
+Theorem C01_labelled_takes_own_break :
+  forall (st val expr : Type) eval truthy poll recatch veq enum live bind fuel (s0 : st) L l (s : stmt expr),
+    match snd (exec_o (val:=val) eval truthy poll recatch veq enum live bind fuel s0 L (SLabelled l s)) with
+    | ONorm (OBrk t) => t <> l | _ => True end.
+Proof. exact labelled_takes_own_break. Qed.
+Print Assumptions C01_labelled_takes_own_break.
+
+(* the former witnesses of the defect - label on an if, on a try whose catch clause jumps, on a bare break, inside a
+   function - lie outside the syntactic guard wf of the refinement theorem; both semantics agree on them now *)
+Theorem C01_label_direct_agrees : agrees_on w_label_if [VNum 5] ONormal /\ wf (SBlock w_label_if) = false.
+Proof. exact w_label_if_agrees. Qed.
+Print Assumptions C01_label_direct_agrees.
+Theorem C01_label_catch_agrees : agrees_on w_label_catch [VNum 5] ONormal /\ wf (SBlock w_label_catch) = false.
+Proof. exact w_label_catch_agrees. Qed.
+Print Assumptions C01_label_catch_agrees.
+Theorem C01_label_bare_agrees : agrees_on w_label_bare [VNum 5] ONormal /\ wf (SBlock w_label_bare) = false.
+Proof. exact w_label_bare_agrees. Qed.
+Print Assumptions C01_label_bare_agrees.
+Theorem C01_label_in_function_agrees : agrees_on w_label_fn [] (OReturned (VNum 7)) /\ wf (SBlock w_label_fn) = false.
+Proof. exact w_label_fn_agrees. Qed.
+Print Assumptions C01_label_in_function_agrees.
 
 (* MiniJS+ (C01/Full.v): the ES5 reference semantics used as the oracle for
    functions, closures, this, arguments, call/apply/bind, constructors, every
